@@ -679,7 +679,8 @@ func (fx *FnExec) havocLoc(env *CEnv, old, st *State, x *CExpr) []func() {
 		case SliceV:
 			et := under(base.T).(*types.Slice).Elem()
 			if x.Args[1] == nil && x.Args[2] == nil {
-				return []func(){func() { fx.havocBacking(st, et, bv.Ref) }}
+				// s[:] : the elements visible through s (its window of the backing array), nothing outside it
+				return []func(){func() { fx.havocRange(st, et, bv.Ref, bv.Off, bv.Len) }}
 			}
 			sub := env.sliceExpr(x).V.(SliceV)
 			return []func(){func() { fx.havocRange(st, et, sub.Ref, sub.Off, sub.Len) }}
@@ -742,6 +743,7 @@ func (fx *FnExec) havocRange(st *State, et types.Type, ref, off, n *Term) {
 	in := c.BVCmp("bvult", c.BVBin("bvsub", k, off), n)
 	fx.assumeGlobal(c.Forall([]*Term{k}, c.Implies(c.Not(in), c.Eq(c.Select(na, k), c.Select(old, k)))))
 	fx.setElemArray(st, et, ref, na)
+	fx.arrayUpdated(old, na, off, n)
 }
 
 // ---- inlining
